@@ -38,6 +38,10 @@ type sentenceOpts struct {
 	NoSentence    bool // the nonterminal itself is the root
 	Evaluate      bool
 	Before        []int // lengths of files placed before the parsed file
+	// Prescan: the same context first runs a parse of the bare nonterminal (no Sentence: it succeeds on any matching
+	// prefix, the way a loader scans a file for include statements), then the parse that is judged. The second parse is
+	// served from the context's result cache; what the first one learned about failures must not get lost
+	Prescan bool
 }
 
 type sentenceResult struct {
@@ -191,6 +195,9 @@ func runSentence(c GCase, o sentenceOpts) *sentenceResult {
 				}
 			}
 		}()
+		if o.Prescan {
+			parsley.Parse(env.Ctx, rootProbe)
+		}
 		if o.Evaluate {
 			res.Value, res.Err = parsley.Evaluate(env.Ctx, root)
 		} else {
